@@ -330,6 +330,49 @@ fn s_streams() -> Result<(), String> {
     if !listing(&p).is_empty() || p.has_stream("Icon.exe") {
         return Err("removed stream is still listed".to_string());
     }
+    // user streams whose names spell the special streams' names are ordinary streams: listed, readable, and they leave
+    // the real summary information and table data alone
+    p.summary_info_mut().set_subject("kept");
+    let specials = ["\u{5}SummaryInformation", "\u{5}DocumentSummaryInformation", "\u{5}DigitalSignature", "\u{5}MsiDigitalSignatureEx", "Plain.bin"];
+    let mut expect: Vec<String> = Vec::new();
+    for (i, name) in specials.iter().enumerate() {
+        match p.write_stream(*name) {
+            Ok(mut w) => {
+                w.write_all(&[i as u8; 3]).map_err(|e| e.to_string())?;
+                expect.push(name.to_string());
+            }
+            Err(_) => {}
+        }
+    }
+    expect.sort();
+    p.flush().map_err(|e| e.to_string())?;
+    for round in 0..2 {
+        let mut q = if round == 0 { None } else { Some(Package::open(Cursor::new(m.snapshot())).map_err(|e| format!("reopen failed: {}", e))?) };
+        let got: Vec<String> = match q {
+            None => listing(&p),
+            Some(ref q) => {
+                let mut v: Vec<String> = q.streams().collect();
+                v.sort();
+                v
+            }
+        };
+        if got != expect {
+            return Err(format!("stream listing {} is {:?}, the live user streams are {:?}", if round == 0 { "before reopen" } else { "after reopen" }, got, expect));
+        }
+        let subject = match q {
+            None => p.summary_info().subject().map(|s| s.to_string()),
+            Some(ref mut q) => q.summary_info().subject().map(|s| s.to_string()),
+        };
+        if subject.as_deref() != Some("kept") {
+            return Err("a user stream named like a special stream disturbed the summary information".to_string());
+        }
+    }
+    for name in expect.iter() {
+        p.remove_stream(name.as_str()).map_err(|e| format!("removing {:?} failed: {}", name, e))?;
+    }
+    if !listing(&p).is_empty() {
+        return Err(format!("after removing every user stream the listing is {:?}", listing(&p)));
+    }
     if p.drop_table("_Tables").is_ok() || p.drop_table("Missing").is_ok() || p.drop_table("9bad").is_ok() {
         return Err("drop_table accepted a reserved / unknown / invalid name".to_string());
     }
@@ -602,9 +645,36 @@ fn s_keys() -> Result<(), String> {
     // composite key: order changes without collision
     p.update_rows(Update::table("C").set("A", Value::from("z")).with(Expr::col("V").eq(Expr::integer(100)))).map_err(|e| format!("moving a composite key failed: {}", e))?;
     invariant(&mut p, "C", 2, "after UPDATE C SET A = 'z' WHERE V = 100")?;
+    // a table whose primary-key column is not the leading column
+    fn invariant_at(p: &mut Package<Medium>, t: &str, key: usize, what: &str) -> Result<Vec<Vec<Value>>, String> {
+        let rows = p.select_rows(Select::table(t)).map_err(|e| format!("select failed: {}", e))?;
+        let all: Vec<Vec<Value>> = rows.map(|r| (0..r.len()).map(|i| r[i].clone()).collect()).collect();
+        for w in all.windows(2) {
+            if w[0][key] >= w[1][key] {
+                return Err(format!("{}: table {} holds rows with keys {:?} then {:?} (not strictly ascending)", what, t, w[0][key], w[1][key]));
+            }
+        }
+        Ok(all)
+    }
+    p.create_table("N", vec![Column::build("Label").nullable().string(0), Column::build("Id").primary_key().int32()]).map_err(|e| e.to_string())?;
+    p.insert_rows(Insert::into("N").rows(vec![
+        vec![Value::from("c"), Value::Int(1)],
+        vec![Value::from("b"), Value::Int(2)],
+        vec![Value::from("a"), Value::Int(3)],
+    ]))
+    .map_err(|e| e.to_string())?;
+    let n0 = invariant_at(&mut p, "N", 1, "after inserting into N")?;
+    let r = p.update_rows(Update::table("N").set("Id", Value::Int(3)).with(Expr::col("Id").lt(Expr::integer(3))));
+    let n1 = invariant_at(&mut p, "N", 1, "after UPDATE N SET Id = 3 WHERE Id < 3")?;
+    if r.is_err() && n1 != n0 {
+        return Err("a refused key update on N changed the table".into());
+    }
+    p.update_rows(Update::table("N").set("Id", Value::Int(7)).with(Expr::col("Id").eq(Expr::integer(1)))).map_err(|e| format!("moving a key of N failed: {}", e))?;
+    invariant_at(&mut p, "N", 1, "after UPDATE N SET Id = 7 WHERE Id = 1")?;
     p.flush().map_err(|e| e.to_string())?;
     drop(p);
     let mut q = Package::open(m.clone()).map_err(|e| format!("reopen failed: {}", e))?;
+    invariant_at(&mut q, "N", 1, "after reopen")?;
     invariant(&mut q, "T", 1, "after reopen")?;
     invariant(&mut q, "C", 2, "after reopen")?;
     Ok(())
